@@ -32,7 +32,7 @@ module M = Map.Make (struct type t = int64 let compare = Int64.unsigned_compare 
 let run (lines : string list) =
   let st = ref None and a = ref (alloc_init [] limit) and spec = ref ([], None) in
   let cmp = ref (cmp_of "num") and full = ref true and pool = ref [] and isset = ref false in
-  let huge = ref false and hm = ref M.empty in
+  let huge = ref false and hm = ref M.empty and hn = ref 0 in
   let ledger a = if !huge then " L=0,0,0" else ledger a in
   let tstep t o = ok (tt_step !cmp t !a o) in
   (* observation through the model's public functions *)
@@ -53,7 +53,7 @@ let run (lines : string list) =
       ~gt:(q (fun k -> OGreater k)) ~lt:(q (fun k -> OLesser k))
       ~rb:(if !full then (if rb_inv_b !cmp t.tt_tree then 1 else 0) else 1) ~bal in
   let ideal_obs () =
-    if !huge then Printf.sprintf " | size=%d bal=1" (M.cardinal !hm) else
+    if !huge then Printf.sprintf " | size=%d bal=1" !hn else
     let (l, _) = !spec in
     let q mk k = match spec_step !cmp !spec (mk k) with (((CC_OK, [x]), _)) -> Some x | _ -> None in
     obs_of ~size:(string_of_int (List.length l)) ~elems:(if !full then l else [])
@@ -65,7 +65,7 @@ let run (lines : string list) =
     if i = 0 then begin
       match tok with
       | _ :: _ :: _ :: kind :: c :: mem :: mode :: pl :: rest ->
-          cmp := cmp_of c; full := (mode = "full"); isset := (kind = "set"); huge := (mode = "huge"); hm := M.empty;
+          cmp := cmp_of c; full := (mode = "full"); isset := (kind = "set"); huge := (mode = "huge"); hm := M.empty; hn := 0;
           pool := (if pl = "-" then [] else List.map n_of_string (String.split_on_char ',' pl));
           let plan = List.fold_left (fun acc w -> if String.length w > 5 && String.sub w 0 5 = "plan=" then String.sub w 5 (String.length w - 5) else acc) "" rest in
           let tg = if mem = "conf" then Conf else Libc in
@@ -118,16 +118,16 @@ let run (lines : string list) =
           let huge_step o =
             let key k = int64_of_n k in
             (match o with
-             | OAdd (k, v) -> hm := M.add (key k) v !hm; (CC_OK, [])
+             | OAdd (k, v) -> if not (M.mem (key k) !hm) then incr hn; hm := M.add (key k) v !hm; (CC_OK, [])
              | OGet k -> (match M.find_opt (key k) !hm with Some v -> (CC_OK, [v]) | None -> (CC_ERR_KEY_NOT_FOUND, []))
              | OContainsKey k -> (CC_OK, [if M.mem (key k) !hm then n_of_int 1 else N0])
              | ORemove k -> (match M.find_opt (key k) !hm with
-                             | Some v -> hm := M.remove (key k) !hm; (CC_OK, [v]) | None -> (CC_ERR_KEY_NOT_FOUND, []))
+                             | Some v -> hm := M.remove (key k) !hm; decr hn; (CC_OK, [v]) | None -> (CC_ERR_KEY_NOT_FOUND, []))
              | ORemoveFirst -> (match M.min_binding_opt !hm with
-                                | Some (k, v) -> hm := M.remove k !hm; (CC_OK, [v]) | None -> (CC_ERR_KEY_NOT_FOUND, []))
+                                | Some (k, v) -> hm := M.remove k !hm; decr hn; (CC_OK, [v]) | None -> (CC_ERR_KEY_NOT_FOUND, []))
              | ORemoveLast -> (match M.max_binding_opt !hm with
-                               | Some (k, v) -> hm := M.remove k !hm; (CC_OK, [v]) | None -> (CC_ERR_KEY_NOT_FOUND, []))
-             | OSize -> (CC_OK, [n_of_int (M.cardinal !hm)])
+                               | Some (k, v) -> hm := M.remove k !hm; decr hn; (CC_OK, [v]) | None -> (CC_ERR_KEY_NOT_FOUND, []))
+             | OSize -> (CC_OK, [n_of_int !hn])
              | _ -> failwith "operation not available in huge mode") in
           let ((s2, v2), sp') =
             if out.o_st = CC_ERR_ALLOC then ((CC_ERR_ALLOC, []), !spec)
